@@ -1,1 +1,3 @@
+import TdxProofs.Props.C09
 import TdxProofs.Props.C15
+import TdxProofs.Props.C20
